@@ -121,11 +121,25 @@ func runC08(c *Ctx, r *Run) {
 							continue
 						}
 						fl := paramFields(fn, iff.Cond)
-						if len(fl) == 1 && fl[0] == "recv.refresh" {
+						byFlag := len(fl) == 1 && fl[0] == "recv.refresh"
+						// ... or by the presence of the previous configuration (the start function: c == nil means key generation)
+						byConfig := false
+						var cfgNilSucc *ssa.BasicBlock
+						if bo, isBo := iff.Cond.(*ssa.BinOp); isBo && (bo.Op == token.EQL || bo.Op == token.NEQ) && isNilConst(bo.Y) && len(fl) == 1 && strings.HasSuffix(fl[0], "Config") {
+							byConfig = true
+							cfgNilSucc = d.Succs[0]
+							if bo.Op == token.NEQ {
+								cfgNilSucc = d.Succs[1]
+							}
+						}
+						if byFlag || byConfig {
 							// the sampled edge must come from the not-refresh side, the zero edge must not
 							notRefresh := d.Succs[1]
 							if u, isU := iff.Cond.(*ssa.UnOp); isU && u.Op == token.NOT {
 								notRefresh = d.Succs[0]
+							}
+							if byConfig {
+								notRefresh = cfgNilSucc
 							}
 							okSel = true
 							for i, e := range ph.Edges {
